@@ -449,7 +449,10 @@ impl Wal {
             }
 
             let mut segment = WalSegment::open(&segment_path, i)?;
+            let file_len = segment.offset();
+            let mut consumed = 0u64;
             while let Ok((header, page_data)) = segment.read_frame() {
+                consumed += (WAL_FRAME_HEADER_SIZE + PAGE_SIZE) as u64;
                 if header.page_no >= storage.page_count() {
                     let required_pages = header.db_size.max(header.page_no + 1);
                     storage.grow(required_pages).wrap_err_with(|| {
@@ -470,6 +473,9 @@ impl Wal {
                 page_mut.copy_from_slice(&page_data);
                 frames_applied += 1;
             }
+            if consumed < file_len {
+                break;
+            }
         }
 
         Ok(frames_applied)
@@ -486,8 +492,11 @@ impl Wal {
             }
 
             let mut segment = WalSegment::open(&segment_path, i)?;
+            let file_len = segment.offset();
+            let mut consumed = 0u64;
 
             while let Ok((header, page_data)) = segment.read_frame() {
+                consumed += (WAL_FRAME_HEADER_SIZE + PAGE_SIZE) as u64;
                 if header.file_id != file_id {
                     continue;
                 }
@@ -511,6 +520,9 @@ impl Wal {
 
                 page_mut.copy_from_slice(&page_data);
                 frames_applied += 1;
+            }
+            if consumed < file_len {
+                break;
             }
         }
 
@@ -564,8 +576,11 @@ impl Wal {
             }
 
             let mut segment = WalSegment::open(segment_path, sequence)?;
+            let file_len = segment.offset();
+            let mut consumed = 0u64;
 
             while let Ok((header, page_data)) = segment.read_frame() {
+                consumed += (WAL_FRAME_HEADER_SIZE + PAGE_SIZE) as u64;
                 if header.file_id != file_id {
                     continue;
                 }
@@ -589,6 +604,9 @@ impl Wal {
 
                 page_mut.copy_from_slice(&page_data);
                 frames_applied += 1;
+            }
+            if consumed < file_len {
+                break;
             }
         }
 
